@@ -1104,7 +1104,10 @@ func (cx *evalCtx) call(x *ast.CallExpr) (TV, error) {
 			}
 			if _, _, isInt := intWidth(t); isInt && a.Sort == SInt {
 				// conversions in contracts follow Go: wrap when the source may not fit
-				if a.T != nil {
+				// (arithmetic in contracts is mathematical: a sum of two uint64 values may not fit, so a compound
+				// arithmetic term is always wrapped by an explicit conversion)
+				compound := strings.HasPrefix(a.S, "(+ ") || strings.HasPrefix(a.S, "(- ") || strings.HasPrefix(a.S, "(* ")
+				if a.T != nil && !compound {
 					if flo, fhi, ok := intRange(a.T); ok {
 						tlo, thi, _ := intRange(t)
 						if flo.Cmp(tlo) >= 0 && fhi.Cmp(thi) <= 0 {
